@@ -41,6 +41,10 @@ struct System {
     truth: Vec<i64>,
     /// free parameters that no equation mentions (the system is then under-determined)
     loose: Vec<bool>,
+    /// scales (powers of two, so that everything stays exact): actual coefficient = coefficient x cs, actual values
+    /// (solution, start) = value x xs.  A uniformly scaled system is as well conditioned as the unscaled one.
+    cs: f64,
+    xs: f64,
 }
 
 fn gen_system(rng: &mut Rng, n: usize, satisfied_start: bool) -> System {
@@ -91,17 +95,18 @@ fn gen_system(rng: &mut Rng, n: usize, satisfied_start: bool) -> System {
         eqs.push((coefs.clone(), truth[j]));
     }
     let start: Vec<f32> = (0..n).map(|i| if fixed[i] || loose[i] || satisfied_start { truth[i] as f32 } else { truth[i] as f32 + rng.below(7) as f32 - 3.0 }).collect();
-    System { vars, names, fixed, start, eqs, truth, loose }
+    System { vars, names, fixed, start, eqs, truth, loose, cs: 1.0, xs: 1.0 }
 }
 
 fn run<F: MathFunction + Clone>(w: &mut dyn Write, id: &mut usize, backend: &str, sys: &System) {
     let mut ctx = Context::new();
     let mut fs = vec![];
+    let (cs, xs) = (sys.cs, sys.xs);
     for (coefs, b) in &sys.eqs {
-        let mut t = Tree::constant(-(*b as f32));
+        let mut t = Tree::constant(-((*b as f64 * cs * xs) as f32));
         for (j, c) in coefs.iter().enumerate() {
             if *c != 0 {
-                t = t + Tree::from(sys.vars[j]) * Tree::constant(*c as f32);
+                t = t + Tree::from(sys.vars[j]) * Tree::constant((*c as f64 * cs) as f32);
             }
         }
         let n = ctx.import(&t);
@@ -109,7 +114,8 @@ fn run<F: MathFunction + Clone>(w: &mut dyn Write, id: &mut usize, backend: &str
     }
     let mut params: HashMap<Var, Parameter> = HashMap::new();
     for (j, v) in sys.vars.iter().enumerate() {
-        params.insert(*v, if sys.fixed[j] { Parameter::Fixed(sys.start[j]) } else { Parameter::Free(sys.start[j]) });
+        let st = (sys.start[j] as f64 * xs) as f32;
+        params.insert(*v, if sys.fixed[j] { Parameter::Fixed(st) } else { Parameter::Free(st) });
     }
     let keep = sys.eqs.len() * sys.vars.len() + sys.vars.len();
     let limit = std::env::var("C19_ITER").ok().and_then(|s| s.parse().ok()).unwrap_or(100_000usize) * sys.eqs.len().max(1) * sys.vars.len();
@@ -145,26 +151,27 @@ fn run<F: MathFunction + Clone>(w: &mut dyn Write, id: &mut usize, backend: &str
     // residual in f64 (judged): every equation within 1e-3 of zero, scaled by coefficient magnitude
     let val = |name: &str| -> f64 {
         let j = sys.names.iter().position(|n| n == name).unwrap();
-        if sys.fixed[j] { sys.start[j] as f64 } else { result.iter().find(|(n, _)| n == name).map(|(_, x)| *x as f64).unwrap_or(f64::NAN) }
+        if sys.fixed[j] { sys.start[j] as f64 * xs } else { result.iter().find(|(n, _)| n == name).map(|(_, x)| *x as f64).unwrap_or(f64::NAN) }
     };
     let mut max_res = 0.0f64;
     for (coefs, b) in &sys.eqs {
-        let mut s = -(*b as f64);
+        let mut s = -(*b as f64 * cs * xs);
         for (j, c) in coefs.iter().enumerate() {
-            if *c != 0 { s += *c as f64 * val(&sys.names[j]); }
+            if *c != 0 { s += *c as f64 * cs * val(&sys.names[j]); }
         }
-        max_res = max_res.max(s.abs());
+        max_res = max_res.max(s.abs() / (cs * xs));
     }
     let near_truth = result.iter().all(|(n, x)| {
         let j = sys.names.iter().position(|m| m == n).unwrap();
-        (*x as f64 - sys.truth[j] as f64).abs() < 1.0e-2
+        (*x as f64 / xs - sys.truth[j] as f64).abs() < 1.0e-2
     });
     let satisfied_start = sys.eqs.iter().all(|(coefs, b)| coefs.iter().enumerate().map(|(j, c)| *c as f64 * sys.start[j] as f64).sum::<f64>() == *b as f64);
     let mut res_sorted = result.clone();
     res_sorted.sort_by(|a, b| a.0.cmp(&b.0));
     let j = json!({"ev": "solve", "id": *id, "backend": backend, "status": status, "msg": msg, "n": sys.vars.len(),
-        "roles": sys.names.iter().enumerate().map(|(j, n)| json!([n, if sys.fixed[j] { "fixed" } else { "free" }, bits(sys.start[j])])).collect::<Vec<_>>(),
-        "eqs": sys.eqs.iter().map(|(c, b)| json!({"coefs": sys.names.iter().zip(c).filter(|(_, c)| **c != 0).map(|(n, c)| json!([n, c])).collect::<Vec<_>>(), "b": b})).collect::<Vec<_>>(),
+        "roles": sys.names.iter().enumerate().map(|(j, n)| json!([n, if sys.fixed[j] { "fixed" } else { "free" }, bits((sys.start[j] as f64 * xs) as f32)])).collect::<Vec<_>>(),
+        "eqs": sys.eqs.iter().map(|(c, b)| json!({"coefs": sys.names.iter().zip(c).filter(|(_, c)| **c != 0).map(|(n, c)| json!([n, (*c as f64 * cs) as i64])).collect::<Vec<_>>(), "b": b})).collect::<Vec<_>>(),
+        "cs_log2": cs.log2() as i64, "xs_log2": xs.log2() as i64,
         "jac": jac, "result": res_sorted.iter().map(|(n, x)| json!([n, bits(*x)])).collect::<Vec<_>>(),
         "residual_small": max_res.is_finite() && max_res < 1.0e-3, "satisfied_start": satisfied_start,
         "truth": sys.truth, "loose": sys.loose.iter().filter(|l| **l).count(), "near_truth": near_truth, "iterations": iterations});
@@ -191,6 +198,22 @@ fn main() {
     for n in 1..=40usize {
         for rep in 0..reps {
             let sys = gen_system(&mut rng, n, rep % 3 == 2);
+            run::<VmFunction>(&mut w, &mut id, "vm", &sys);
+            if rep % 2 == 0 {
+                run::<JitFunction>(&mut w, &mut id, "jit", &sys);
+            }
+        }
+    }
+    // uniformly scaled systems: coefficients x 2^20, unknowns x 2^-26 (about 1e6 and 1.5e-8): as well conditioned as the
+    // unscaled ones, but every absolute threshold in the iteration is off by many orders of magnitude
+    for n in 1..=12usize {
+        for rep in 0..(if quick { 2 } else { 12 }) {
+            let mut sys = gen_system(&mut rng, n, rep % 4 == 3);
+            (sys.cs, sys.xs) = if rep % 2 == 0 { (1048576.0, 1.0 / 67108864.0) } else { (1.0 / 1024.0, 4096.0) };
+            if sys.cs < 1.0 {
+                // coefficients are recorded as integers: keep them integral
+                sys.cs = 1.0;
+            }
             run::<VmFunction>(&mut w, &mut id, "vm", &sys);
             if rep % 2 == 0 {
                 run::<JitFunction>(&mut w, &mut id, "jit", &sys);
